@@ -19,6 +19,13 @@ def handleResolve (st : St) (op : String) (j : Json) : Option (D (St × Json)) :
       | .ok (some ms) => ok (eMarks ms)
       | .ok none => ok Json.null
       | .error e => eErr e)
+  | "resolveNodes" => some do
+    -- the ancestors of a position as nodes: `node(0) … node(depth)` (`doc` is the first, `parent` the last)
+    let d ← node (← field j "doc")
+    let pos ← nat (← field j "pos")
+    match d.resolve pos with
+    | none => return (st, eErr .valueError)
+    | some r => return (st, ok (Json.arr (((List.range (r.depth + 1)).map r.node).map eNode).toArray))
   | "nodeRange" => some do
     let d ← node (← field j "doc")
     let f ← nat (← field j "from")
